@@ -268,6 +268,9 @@ func checkC03(p *Program, r *Report) {
 	// a node is decoded with the size it was built with
 	checkVLenWidth(p, r, "C03.vlen-width")
 	checkBigZone(p, r, "C03.bigzone")
+	// ---- exactness is a property of the loaded data: everything GetID reads from the instance is
+	// replaced by every successful load (shared with C18/C19)
+	checkFreshFor(p, r, "C03.fresh", getID, "GetID", 1)
 	// ---- keys are bytes (shared with C10): exactness for arbitrary query strings includes bytes >= 0x80
 	checkNoRuneWalk(p, r, "C03.bytes-not-runes", p.Method(p.Trie, "SlimTrie", "Get"), getID, p.Method(p.Trie, "SlimTrie", "RangeGet"), p.Method(p.Trie, "SlimTrie", "Search"), p.Trie.Func("NewSlimTrie"))
 }
